@@ -104,17 +104,14 @@ func (c *Cache) Set(key string, value any) {
 // SetWithExpire sets value into c with key and expire with the given value.
 func (c *Cache) SetWithExpire(key string, value any, expire time.Duration) {
 	c.lock.Lock()
-	_, ok := c.data[key]
 	c.data[key] = value
 	c.lruCache.add(key)
 	c.lock.Unlock()
 
 	expiry := c.unstableExpiry.AroundDuration(expire)
-	if ok {
-		c.timingWheel.MoveTimer(key, expiry)
-	} else {
-		c.timingWheel.SetTimer(key, value, expiry)
-	}
+	// SetTimer refreshes the timer of a key that is already present (and, unlike
+	// MoveTimer, clamps an expiry below the wheel interval instead of firing at once).
+	c.timingWheel.SetTimer(key, value, expiry)
 }
 
 // Take returns the item with the given key.
